@@ -209,8 +209,16 @@ func runC19(r *simkit.Run, c Cfg) {
 	provs := []*Ident{Identity("V1"), Identity("V2"), Identity("V3")}
 	addrPool := []string{"/ip4/8.8.8.8/tcp/3104", "/dns4/prov.example.com/tcp/443/https", "/ip6/2606:4700::1111/tcp/80/http"}
 	for i := 0; i < nm; i++ {
-		hf := []uint64{multihash.SHA2_256, multihash.SHA2_512, multihash.IDENTITY}[tp.Choose(3, "mhfn")]
+		hf := []uint64{multihash.SHA2_256, multihash.SHA2_512, multihash.IDENTITY, multihash.SHA1}[tp.Choose(4, "mhfn")]
 		mh := must(multihash.Sum([]byte(fmt.Sprintf("content-%d", i)), hf, -1))
+		if hf == multihash.SHA1 {
+			// a multihash whose hex form has no digit 0: every character of
+			// it is also a base58 character
+			for k := 0; strings.Contains(hex.EncodeToString(mh), "0"); k++ {
+				mh = must(multihash.Sum([]byte(fmt.Sprintf("content-%d-%d", i, k)), hf, -1))
+			}
+			r.Probe("hex-key-without-zero-digit")
+		}
 		mhs = append(mhs, mh)
 		nres := tp.Choose(9, "nres")
 		if tp.Chance(1, 5, "empty") {
